@@ -1,1 +1,4 @@
 pub mod text;
+pub mod chooser;
+pub mod sheet;
+pub mod fstree;
